@@ -280,7 +280,7 @@ def valid_package(case):
     F = _VALIDATOR['F']
     try:
         conc = F.FlowIRConcrete(copy.deepcopy(case['doc']), case['platform'], {})
-        return not conc.validate()
+        return not conc.validate(top_level_folders=sorted(case.get('folders') or {}))
     except Exception:
         return False
 
